@@ -56,9 +56,12 @@ type Program struct {
 	SlowMicros int
 }
 
-// own keys: goroutine g uses ownKeys[(2g+k) % len] — disjoint for up to 8 goroutines x 2 keys; beyond that
+// own keys: goroutine g uses ownKeys[2g+k] — disjoint for the first 7 goroutines x 2 keys; the other
 // goroutines are read-only.
-var ownKeys = []string{"p256b", "p384a", "p521a", "ed25519b", "ed25519c", "p256c", "rsa1536", "rsa2048b", "p384b", "p521b", "rsa2048c", "rsa2048d", "p256a", "ed25519a", "rsa1024a", "rsa1024b"}
+// (must be disjoint from the shared key and from the keys of the preloaded expired / YSSHCA
+// certificates: a preloaded certificate over the same key would keep a hardware certificate from
+// becoming an orphan)
+var ownKeys = []string{"p256b", "p384a", "p521a", "ed25519b", "ed25519c", "p256c", "rsa1536", "rsa2048b", "p384b", "p521b", "rsa2047", "rsa1031", "rsa1025", "rsa3072"}
 
 const sharedKey = "rsa2048a"
 
@@ -78,7 +81,7 @@ func gen(t *rapid.T) Program {
 		n := rapid.IntRange(1, 8).Draw(t, l+"N")
 		// life cycles of up to two own keys, interleaved with read-type operations
 		var life [][]string
-		if g < 8 {
+		if g < 7 {
 			nk := rapid.IntRange(0, 2).Draw(t, l+"NK")
 			for k := 0; k < nk; k++ {
 				full := []string{"add", "addhard", "signown", "signhard", "signviahard", "signhard", "removehard", "remove"}
